@@ -360,6 +360,27 @@ def run(R):
              "resets %s on every line)" % ([b[0] for b in breaks], per_line), ok, where=breaks[0][1] if breaks else gt.where(),
              detail=None if ok else "a subject with two predicates is written as `s p1 o1 ;\\n    p2 o2 .`; the loader reads the second line as a new statement "
              "with subject p2: the triple (s p2 o2) is lost and a wrong one may be stored")
+    # ---- R7 bare output only for quoted triples in Turtle
+    R.rule("C14-R7", "the Turtle writer delimits what the Turtle tokenizer would split: a stored term is written bare (neither in <...> nor in "
+                     "quotes) only when it is a quoted triple (`<<`), because the line tokenizer treats `.`, `,` and `;` in undelimited text "
+                     "as punctuation (a blank node label such as `_:row.17` written bare does not come back)")
+    gt7 = prog.one("SparqlDatabase::generate_turtle", crate="kolibrie")
+    if gt7 is not None:
+        nbare = 0
+        for x in prog.family(gt7.key):
+            sites = []
+            for c in x.calls():
+                if c.name() == "push_str" and len(c.args) == 2:
+                    for site in _bare_sources(x, c.args[1], c):
+                        if site not in sites:
+                            sites.append(site)
+            for c in sites:
+                nbare += 1
+                ok = any(cd.get("kind") == "call" and cd["call"].name() == "starts_with" and cd.get("truth") is True and len(cd["call"].args) >= 2
+                         and const_text(cd["call"].args[1]) == "<<" for cd in G.conditions(x, c.bb))
+                R.ob("C14-R7", "bare:%d" % nbare, "generate_turtle writes a term without delimiters only under `starts_with(\"<<\")`", ok, where=x.where(c.ln),
+                     detail=None if ok else "undelimited text that is not a quoted triple is cut at `.`, `,` or `;` by tokenize_turtle_star_line on re-import")
+        R.floor("C14-R7", "undelimited term writes in generate_turtle", nbare, 2)
     # ---- R6 decode once
     R.rule("C14-R6", "a term is decoded once: what a loader's term cleaner returns (IRI without brackets, literal decoded to its lexical value) is "
                      "stored as it is - it is not handed to a function that interprets surface syntax again (encode_term_star, "
@@ -478,3 +499,56 @@ def _decode_once(R):
                      detail="the lexical value is interpreted as surface syntax a second time: surrounding blanks are trimmed, a value that starts with a quote "
                      "loses it, `<...>` loses its brackets, `prefix:` is expanded - a literal such as `  padded  ` or a single `\"` does not survive export and re-import")
     R.ob("C14-R6", "scanned", "loader bodies scanned for re-interpretation of cleaned terms (%d flagged call sites)" % nsite, True)
+
+
+def _bare_sources(x, op, site, depth=0, seen=None):
+    """calls at which a stored term's text is taken over unwrapped on its way into a push_str: [] when the pushed text is a constant or
+    comes from format!/the escaper; the clone / push_str call otherwise"""
+    seen = seen if seen is not None else set()
+    if depth > 12:
+        return []
+    if op.get("k") == "const":
+        return []
+    pl = F.op_place(op)
+    if pl is None:
+        return []
+    l = pl["l"]
+    if (l, id(site)) in seen:
+        return []
+    seen.add((l, id(site)))
+    out = []
+    ds = x.defs().get(l, [])
+    if not ds:
+        return []
+    for d in ds:
+        if d[0] == "arg":
+            continue
+        if d[0] == "call":
+            c = d[2]
+            nm = c.name()
+            if nm in ("format", "escape_ntriples_literal", "to_string", "new", "from"):
+                if nm in ("to_string", "from") and c.args:
+                    out.extend(_bare_sources(x, c.args[0], site, depth + 1, seen))
+                continue
+            if nm in ("deref", "as_str", "borrow", "as_ref") and c.args:
+                out.extend(_bare_sources(x, c.args[0], site, depth + 1, seen))
+                continue
+            if nm == "clone" and c.args:
+                # clone of a term value: bare at the clone site (the condition that chose it dominates the clone)
+                out.append(c)
+                continue
+            if nm in ("next", "iter", "into_iter", "enumerate", "decode_any", "unwrap_or_default", "get", "entry", "or_default", "keys", "values"):
+                out.append(site)
+                continue
+            continue
+        if d[0] in ("assign", "partial"):
+            rv = d[3]
+            if rv["rv"] in ("use", "ref", "cast"):
+                for p2, k2 in F.rv_places(rv):
+                    if [e for e in p2["p"] if e["k"] == "field"]:
+                        out.append(site)        # a component of the iterated (subject, predicates) / objects item: the term itself
+                    else:
+                        out.extend(_bare_sources(x, {"k": "copy", "pl": p2}, site, depth + 1, seen))
+                if rv["rv"] == "use" and rv["op"].get("k") == "const":
+                    pass
+    return out
